@@ -163,6 +163,32 @@ func (g *c14gen) mutate(kind string) (*Topo, string) {
 				b.Slots = append(b.Slots, r)
 			}
 		}
+	case "shift-boundary": // two neighbouring ranges of different masters exchange slots, range counts unchanged
+		done := false
+		for _, a := range ms {
+			for ai, ar := range a.Slots {
+				for _, b := range ms {
+					if b == a || done {
+						continue
+					}
+					for bi, br := range b.Slots {
+						if br[0] == ar[1]+1 && ar[1]-ar[0] > 20 {
+							k := 1 + rng.Intn(ar[1]-ar[0]-2)
+							a.Slots[ai] = [2]int{ar[0], ar[1] - k}
+							b.Slots[bi] = [2]int{br[0] - k, br[1]}
+							done = true
+							break
+						}
+					}
+				}
+				if done {
+					break
+				}
+			}
+			if done {
+				break
+			}
+		}
 	case "single-slot":
 		a, b := pickM(), pickM()
 		if len(a.Slots) > 0 && a != b {
@@ -328,11 +354,38 @@ func (g *c14gen) mutate(kind string) (*Topo, string) {
 			tn.CPort = !tn.CPort
 		}
 	}
+	// line order as a real node prints it: unrelated to roles
+	t.Order = rng.Perm(len(t.Nodes))
 	return t, kind
 }
 
-var c14valid = []string{"move-range", "single-slot", "unclaim-range", "add-master", "add-replica", "add-replica-loading", "add-replica-linkdown", "remove-replica",
+var c14valid = []string{"shift-boundary", "move-range", "single-slot", "unclaim-range", "add-master", "add-replica", "add-replica-loading", "add-replica-linkdown", "remove-replica",
 	"remove-master", "failover", "reparent-replica", "change-ids", "flag-master-fail", "flag-replica", "unflag", "migration-markers", "seven-column-line", "toggle-cport", "move-range", "failover"}
+
+var (
+	c14deckMu sync.Mutex
+	c14deck   []string
+)
+
+// c14nextKind deals transition kinds from a shared shuffled deck, so that a
+// run covers every kind before repeating any (whatever the number of lanes).
+func c14nextKind(rng *rand.Rand) string {
+	c14deckMu.Lock()
+	defer c14deckMu.Unlock()
+	if len(c14deck) == 0 {
+		seen := map[string]bool{}
+		for _, k := range c14valid {
+			if !seen[k] {
+				seen[k] = true
+				c14deck = append(c14deck, k)
+			}
+		}
+		rng.Shuffle(len(c14deck), func(i, j int) { c14deck[i], c14deck[j] = c14deck[j], c14deck[i] })
+	}
+	k := c14deck[0]
+	c14deck = c14deck[1:]
+	return k
+}
 
 // unusable replies
 func c14unusable(kind string, cur *Topo) func(n *Node) []byte {
@@ -553,6 +606,7 @@ func c14lane(c *Check, rng *rand.Rand, lane, steps int, hooks, mode string) {
 	firstKind := c14unusableKinds[lane%len(c14unusableKinds)]
 	opt.Topo = func(cl *Cluster) *Topo {
 		t := RandomTopo(cl, 4, 1, 6, rng.Intn)
+		t.Order = rng.Perm(len(t.Nodes))
 		gen = &c14gen{cl: cl, rng: rng, cur: t, pool: cl.Nodes}
 		return t
 	}
@@ -652,7 +706,7 @@ func c14lane(c *Check, rng *rand.Rand, lane, steps int, hooks, mode string) {
 			c.Count("unusable_replies_left_map_in_force", 1)
 			prevUnusable = uk
 		}
-		kind := c14valid[rng.Intn(len(c14valid))]
+		kind := c14nextKind(rng)
 		nt, kind := gen.mutate(kind)
 		nref := c14interpret(nt, ref.known)
 		if nref == nil {
